@@ -214,7 +214,10 @@ CLAIMED = {
                 "types and every data-format property (Proofs/RangeTotal, DecimalTotal, DeclareTotal, CidTotal); C10_field_value_total - no cell text "
                 "can make a field of a CID that was read raise anything but a rejection; plus field names, integer properties, row dispatch, ordering "
                 "errors, and that the command line never exits 4 on modelled outcomes. Also enumerated: end-of-data expressions through 5 APIs, Excel date "
-                "cells xlrd refuses, byte-level damage of xlsx/ods archives, ODS declared encodings.",
+                "cells xlrd refuses, byte-level damage of xlsx/ods archives, ODS declared encodings, 28 codec names x declare / rows / validate / write, cells that "
+                "are no text handed to the writer, container faults in the first line, lone surrogates / continuation lines / what CPython's tokenizer, re and "
+                "int-to-text conversion refuse in their own ways, secondary API entry points on valid input (Writer from a CID path, Cid.add_check, "
+                "XlsxRowWriter.write_rows, streams without a usable name). 19 genuine defects of this property were found and repaired in session 3.",
         "note": "The totality theorems are about the model; that the model predicts the class the real code raises rests on the enumeration "
                 "(class-by-class comparison for every hostile cell). Exception sources outside the model (MemoryError, library bugs, the readers of "
                 "data files) can only be met by the enumeration. "
